@@ -176,6 +176,10 @@ func CheckPanics(on bool)    {}
 func CheckDeadlock(on bool)  {}
 func MapOrderNondet(on bool) {}
 
+// Replace substitutes fn for the named function under the engine (no effect natively: harnesses
+// using it are engine-only).
+func Replace(name string, fn interface{}) {}
+
 // RacyScope makes every shared-memory access of functions whose name contains scope a scheduling
 // point under the engine (no effect natively).
 func RacyScope(scope string) {}
